@@ -290,6 +290,9 @@ InvM == \A p \in Pods, n \in Nodes, aff \in Affs : \A u \in MatchSet(p, n, aff) 
             u \in DOMAIN res /\ OwnerSat(res[u], QPod(p))
 \* non-vacuity witnesses (checked to be REACHABLE by MC_witness.cfg: each must be violated)
 NeverOnceBusyMatchable == ~\E u \in DOMAIN cinfo, n \in Nodes : u \in matchable[n] /\ cinfo[u].o.once /\ DOMAIN cinfo[u].pods # {}
+NeverNamesNarrowed == ~\E u \in DOMAIN cinfo : cinfo[u].names # DOMAIN cinfo[u].o.alloc /\ DOMAIN cinfo[u].pods # {}
+NeverStaleNodeDelete == ~\E u \in DOMAIN cinfo : cinfo[u].o.node = "" /\ \E n \in Nodes : u \in onNode[n]
+NeverOwnerMismatch == ~\E u \in DOMAIN cinfo, n \in Nodes, p \in Pods : u \in matchable[n] /\ ~OwnerSat(cinfo[u].o, QPod(p))
 NeverTwoPods == ~\E u \in DOMAIN cinfo : Cardinality(DOMAIN cinfo[u].pods) >= 2
 
 (******************************** generation ********************************)
